@@ -413,28 +413,45 @@ func runCheck(c *propCfg, tier string) int {
 	// 2. replay tier: committed regression cases and known-finding cases
 	{
 		base := filepath.Join(work, "replaydir")
-		ctx, cancel := context.WithTimeout(context.Background(), 10*time.Minute)
-		cmd := exec.CommandContext(ctx, bin, "-test.run", "^TestReplayDir$", "-test.count=1", "-test.timeout", "11m")
-		cmd.Dir = filepath.Join(root, "harness", "props")
-		cmd.Env = append(baseEnv(), "VERIF_REPLAY_DIR="+filepath.Join(root, "replays"), "VERIF_REPLAY_PROP="+c.id, "VERIF_OUT="+base, "VERIF_ROOT="+root, "GOMAXPROCS=4")
-		b, err := cmd.CombinedOutput()
-		cancel()
-		out := string(b)
-		_ = os.WriteFile(base+".log", b, 0o644)
+		done := map[string]bool{}
 		failing := []string{}
-		for _, line := range strings.Split(out, "\n") {
-			if strings.HasPrefix(line, "REPLAY-FAIL ") {
-				f := strings.TrimSuffix(strings.Fields(line)[1], ":")
-				failing = append(failing, f)
+		for round := 0; round < 50; round++ {
+			skip := []string{}
+			for f := range done {
+				skip = append(skip, f)
 			}
-		}
-		if err != nil && !strings.Contains(out, "REPLAY-DIR-DONE") {
-			// crashed or hung inside a replay file
-			if p, e := os.ReadFile(base + ".replaying"); e == nil {
-				failing = append(failing, string(p))
-			} else {
+			ctx, cancel := context.WithTimeout(context.Background(), 10*time.Minute)
+			cmd := exec.CommandContext(ctx, bin, "-test.run", "^TestReplayDir$", "-test.count=1", "-test.timeout", "11m")
+			cmd.Dir = filepath.Join(root, "harness", "props")
+			cmd.Env = append(baseEnv(), "VERIF_REPLAY_DIR="+filepath.Join(root, "replays"), "VERIF_REPLAY_PROP="+c.id, "VERIF_OUT="+base, "VERIF_ROOT="+root, "GOMAXPROCS=4",
+				"VERIF_REPLAY_SKIP="+strings.Join(skip, ","))
+			_ = os.Remove(base + ".replaying")
+			b, err := cmd.CombinedOutput()
+			cancel()
+			out := string(b)
+			_ = os.WriteFile(fmt.Sprintf("%s.%d.log", base, round), b, 0o644)
+			for _, line := range strings.Split(out, "\n") {
+				if strings.HasPrefix(line, "REPLAY-FAIL ") {
+					f := strings.TrimSuffix(strings.Fields(line)[1], ":")
+					if !done[f] {
+						failing = append(failing, f)
+					}
+					done[f] = true
+				} else if strings.HasPrefix(line, "REPLAY-OK ") {
+					done[strings.Fields(line)[1]] = true
+				}
+			}
+			if err == nil || strings.Contains(out, "REPLAY-DIR-DONE") {
+				break
+			}
+			// crashed or hung inside a replay file: attribute it, then go on with the rest
+			p, e := os.ReadFile(base + ".replaying")
+			if e != nil || done[string(p)] {
 				infra = append(infra, "replay tier died: "+firstLines(out, 20))
+				break
 			}
+			failing = append(failing, string(p))
+			done[string(p)] = true
 		}
 		for _, f := range failing {
 			violations = append(violations, f)
@@ -620,7 +637,12 @@ func runCheck(c *propCfg, tier string) int {
 
 	fmt.Printf("%s %s: %d evaluations, %d distinct non-trivial, %d shards, %.1fs\n", c.id, tier, m.Evaluations, m.Distinct, m.Shards, time.Since(start).Seconds())
 	if len(violations) > 0 {
+		seenV := map[string]bool{}
 		for _, v := range violations {
+			if seenV[v] {
+				continue
+			}
+			seenV[v] = true
 			fmt.Printf("VIOLATION property=%s replay=%s\n", c.id, v)
 		}
 		return 1
